@@ -5267,7 +5267,7 @@ func readWithRuns(b *Bitmap, data []byte, pos int, keyN uint32) error {
 			}
 			c.setRuns(runs)
 			c.setMapped(false)
-			pos += int((runCount * interval16Size) + runCountHeaderSize)
+			pos += int(runCount)*interval16Size + runCountHeaderSize
 		case containerArray:
 			c.setArray((*[0xFFFFFFF]uint16)(unsafe.Pointer(&data[pos]))[:c.N():c.N()])
 			pos += int(c.N() * 2)
